@@ -1453,6 +1453,17 @@ class BaseInterpreter(Generic[TContext, TEvent]):
             )
         registry[system_id] = actor
 
+    def _unregister_from_system(self) -> None:
+        """Removes this interpreter's `systemId` registrations.
+
+        Called when the interpreter stops, so a stopped actor is no longer
+        addressable through `interpreter.system` or `sendTo("<systemId>")`.
+        """
+        registry = self._system_registry()
+        for system_id, candidate in list(registry.items()):
+            if candidate is self:
+                del registry[system_id]
+
     def _resolve_delay(self, spec: Any, event: Any) -> Optional[float]:
         """Resolves a delay specification to milliseconds.
 
